@@ -15,14 +15,14 @@ def run(ctx, repo):
         'constant (R-TOKEN-DEMAND); the parser advances one state per request and the document-end production looks at no '
         'token beyond the marker (R-EVENT-DEMAND). NOT decided: the numeric bound "two refill blocks" (a run-time count).')
     ctx.trust('CPython ast; sa.cfg reachability')
-    RO.r_api_generators(ctx, repo)
-    RS.r_one_object_per_call(ctx, repo)
-    RO.r_bounded_read(ctx, repo)
-    RO.r_token_demand(ctx, repo)
-    RO.r_event_demand(ctx, repo)
-    RX.r_single_read(ctx, repo)
-    RX.r_dispose_chain(ctx, repo, ['loader.BaseLoader', 'loader.SafeLoader', 'loader.FullLoader', 'loader.Loader', 'loader.UnsafeLoader', 'cyaml.CBaseLoader', 'cyaml.CSafeLoader', 'cyaml.CFullLoader', 'cyaml.CLoader', 'cyaml.CUnsafeLoader'])
-    RX.r_no_memo(ctx, repo)
+    ctx.call(RO.r_api_generators, repo)
+    ctx.call(RS.r_one_object_per_call, repo)
+    ctx.call(RO.r_bounded_read, repo)
+    ctx.call(RO.r_token_demand, repo)
+    ctx.call(RO.r_event_demand, repo)
+    ctx.call(RX.r_single_read, repo)
+    ctx.call(RX.r_dispose_chain, repo, ['loader.BaseLoader', 'loader.SafeLoader', 'loader.FullLoader', 'loader.Loader', 'loader.UnsafeLoader', 'cyaml.CBaseLoader', 'cyaml.CSafeLoader', 'cyaml.CFullLoader', 'cyaml.CLoader', 'cyaml.CUnsafeLoader'])
+    ctx.call(RX.r_no_memo, repo)
 
 if __name__ == '__main__':
     sys.exit(report.main('C18', 'other', run))
